@@ -152,15 +152,15 @@ Section Img.
   Lemma meta_dim_nonneg c d o z : meta_dim odf_px c d = Ok o -> o = Some z ->
     (0 <= z)%Z /\ (c <> RtfImage -> 0 < z)%Z.
   Proof.
-    unfold positive_or_none.
-    destruct c, d; simpl; intros H E; try discriminate; inversion H; subst; clear H; try discriminate;
-      unfold positive_or_none in *;
-      try (destruct (0 <? z0)%Z eqn:P; inversion E; subst; split; [lia | intros _; lia]).
-    - destruct x; [discriminate|]. destruct (odf_px (n :: x)) as [[px|]|]; simpl in *; try discriminate.
-      + inversion H1; subst. unfold positive_or_none in E. destruct (0 <? px)%Z eqn:P; inversion E; subst. split; [lia | intros _; lia].
-      + inversion H1; subst. discriminate.
-    - destruct (0 <? z0)%Z eqn:P; inversion E; subst. split; [|congruence].
-      apply Z.div_pos; lia.
+    assert (P : forall w, positive_or_none w = Some z -> (0 < z)%Z).
+    { intros w. unfold positive_or_none. destruct (0 <? w)%Z eqn:Q; intro H; inversion H; subst; lia. }
+    intros H E. subst o.
+    destruct c eqn:C, d as [|w|y]; simpl in H; try discriminate;
+      try (inversion H as [H1]; apply P in H1; split; [lia | intros _; exact H1]).
+    - destruct y as [|n y]; [discriminate|].
+      destruct (odf_px (n :: y)) as [[px|]|]; simpl in H; try discriminate.
+      inversion H as [H1]; apply P in H1; split; [lia | intros _; exact H1].
+    - destruct (0 <? w)%Z eqn:Q; inversion H; subst. split; [apply Z.div_pos; lia | congruence].
   Qed.
 
   Lemma image_metadata_items f :
